@@ -7,6 +7,8 @@ func init() {
 		Run: func(c *Ctx) {
 			c.Rule("C13.R1", "writer/reader agreement of the ipinfos path", 11)
 			ruleArgsCodec(c, "C13.R1")
+			c.Rule("C13.R6", "reported ips are the lookup for the full request, in its order", 3)
+			ruleReportedInRequestOrder(c, "C13.R6")
 			c.Rule("C13.R4", "network selection copies all common args", 6)
 			ruleNetworkSelection(c, "C13.R4")
 		}})
